@@ -8,6 +8,13 @@ mod c11;
 mod c12;
 mod c13;
 mod c14;
+mod c15;
+mod c16;
+mod c17;
+mod c18;
+#[allow(dead_code)]
+#[path = "../../vh-push/src/pushvm.rs"]
+mod pushvm;
 mod common;
 mod shapes;
 
@@ -24,6 +31,10 @@ fn main() {
         "C12" => c12::run(&args),
         "C13" => c13::run(&args),
         "C14" => c14::run(&args),
+        "C15" => c15::run(&args),
+        "C16" => c16::run(&args),
+        "C17" => c17::run(&args),
+        "C18" => c18::run(&args),
         other => {
             eprintln!("vh-ec: unknown property {other}");
             2
